@@ -156,7 +156,7 @@ def run(tier, seed):
     rows = covering(2 if tier == "quick" else 3)
     L = 4 if tier == "quick" else 5
     items = []
-    sp = strprogs.programs()
+    sp = [p for p in strprogs.programs() if p.get("storage_only") is None]    # (those read bytes that only some storage modes define)
     base = progs.corpus() + progs.features() + [dict(label="Y#%d" % i, src=s, argv=a, ast=None) for i, (s, a) in enumerate(c02.yield_programs())]
     uni = progs.universe_slice(1, step=13 if tier == "quick" else 3, offset=seed) + progs.universe_slice(2, step=1501 if tier == "quick" else 97, offset=seed)
     for i, p in enumerate(sp + base + uni):
